@@ -7,7 +7,7 @@ use crate::props::common::*;
 use crate::src::Src;
 use rasn_compiler::prelude::*;
 use rasn_compiler::OutputMode;
-use serde_json::{json, Value};
+use serde_json::json;
 use std::collections::BTreeMap;
 use std::path::{Path, PathBuf};
 use std::process::Command;
@@ -480,10 +480,18 @@ fn module_items(m: &syn::ItemMod) -> Vec<String> {
 const DUMMY_HEADER: &str = "asn1 { dummy(999) header(999) }\n\nDEFINITIONS AUTOMATIC TAGS::= BEGIN\n";
 const DUMMY_FOOTER: &str = "END";
 
-fn macro_leg(ctx: &mut Ctx, snippets: &[String], failing: &[String]) -> Result<(), String> {
+/// spellings of the module header's `::= BEGIN` that the library accepts: lexical items need
+/// no white space between them, and a comment may follow the keyword directly
+const HEADER_LAYOUTS: [&str; 6] = ["::= BEGIN", "::=BEGIN", "::= BEGIN-- c\n", "::=\nBEGIN", "::=BEGIN--c--", "::=\tBEGIN\r\n"];
+
+/// (literal, is a complete module). Whether a literal is a complete module is known to the
+/// generator; it is not re-derived from the text the way the macro does it.
+type Snippet = (String, bool);
+
+fn macro_leg(ctx: &mut Ctx, snippets: &[Snippet], failing: &[String]) -> Result<(), String> {
     let host = Path::new("/verif/macrohost");
     let mut lib = String::new();
-    for (i, s) in snippets.iter().enumerate() {
+    for (i, (s, _)) in snippets.iter().enumerate() {
         lib.push_str(&format!("pub mod m{i} {{ rasn_compiler_derive::asn1!(r####\"{s}\"####); }}\n"));
     }
     std::fs::write(host.join("src/lib.rs"), &lib).map_err(|e| format!("INFRA: {e}"))?;
@@ -496,25 +504,61 @@ fn macro_leg(ctx: &mut Ctx, snippets: &[String], failing: &[String]) -> Result<(
         .map_err(|e| format!("INFRA: cannot run cargo +nightly: {e}"))?;
     if !o.status.success() {
         let err = String::from_utf8_lossy(&o.stderr).to_string();
-        // a snippet the library compiles must expand
-        ctx.case(&lib, true);
-        ctx.fail(Failure {
-            finding: None,
-            what: format!("asn1! failed to expand snippets that compile_to_string() accepts: {}", err.lines().filter(|l| l.contains("error") || l.contains("panicked")).take(3).collect::<Vec<_>>().join(" | ")),
-            replay: json!({"kind": "c20-macro", "sources": [{"name": "lib.rs", "text": lib}]}),
-        });
+        // a snippet the library compiles must expand: find the literal(s) that do not
+        let mut culprits = 0;
+        for (s, whole) in snippets {
+            let one = format!("pub mod m0 {{ rasn_compiler_derive::asn1!(r####\"{s}\"####); }}\n");
+            std::fs::write(host.join("src/lib.rs"), &one).map_err(|e| format!("INFRA: {e}"))?;
+            let o1 = Command::new("cargo")
+                .args(["+nightly", "rustc", "--offline", "--lib", "--", "-Zunpretty=expanded"])
+                .current_dir(host)
+                .env("CARGO_NET_OFFLINE", "true")
+                .env_remove("RUSTFLAGS")
+                .output()
+                .map_err(|e| format!("INFRA: cannot run cargo +nightly: {e}"))?;
+            ctx.case(&format!("macro:{s}"), true);
+            ctx.class("leg:macro");
+            if !o1.status.success() {
+                culprits += 1;
+                if culprits <= 2 {
+                    let err1 = String::from_utf8_lossy(&o1.stderr).to_string();
+                    ctx.fail(Failure {
+                        finding: None,
+                        what: format!(
+                            "asn1! failed to expand a {} that compile_to_string() accepts: {}",
+                            if *whole { "complete module" } else { "list of assignments" },
+                            err1.lines().filter(|l| l.contains("error") || l.contains("panicked") || l.contains("message:")).take(3).collect::<Vec<_>>().join(" | ")
+                        ),
+                        replay: json!({"kind": "c20-macro", "whole": whole, "sources": [{"name": "snippet.asn", "text": s}]}),
+                    });
+                }
+            }
+        }
+        if culprits == 0 {
+            ctx.case(&lib, true);
+            ctx.fail(Failure {
+                finding: None,
+                what: format!("asn1! failed to expand snippets (together, not one by one) that compile_to_string() accepts: {}", err.lines().filter(|l| l.contains("error") || l.contains("panicked")).take(3).collect::<Vec<_>>().join(" | ")),
+                replay: json!({"kind": "c20-macro", "sources": [{"name": "lib.rs", "text": lib}]}),
+            });
+        }
+        let _ = std::fs::write(host.join("src/lib.rs"), "// rewritten by ./check C20\n");
         return Ok(());
     }
     let expanded = String::from_utf8_lossy(&o.stdout).to_string();
     let file = syn::parse_file(&expanded).map_err(|e| format!("INFRA: expanded output does not parse: {e}"))?;
-    for (i, s) in snippets.iter().enumerate() {
-        let wrapped = if s.contains("BEGIN") { s.clone() } else { format!("{DUMMY_HEADER}{s}{DUMMY_FOOTER}") };
+    for (i, (s, whole)) in snippets.iter().enumerate() {
+        let wrapped = if *whole { s.clone() } else { format!("{DUMMY_HEADER}{s}{DUMMY_FOOTER}") };
         let lib_text = match comp::compile_rasn1(&wrapped, &comp::Cfg::default()) {
             comp::Outcome::Ok(c) => c.generated,
             _ => continue,
         };
         ctx.case(&format!("macro:{s}"), true);
         ctx.class("leg:macro");
+        ctx.class(if *whole { "macro:complete-module" } else { "macro:bare-assignments" });
+        if *whole && !s.contains("::= BEGIN\n") {
+            ctx.class("macro:header-without-plain-spacing");
+        }
         let want: Vec<Vec<String>> = syn::parse_file(&lib_text)
             .map(|f| f.items.iter().filter_map(|it| match it { syn::Item::Mod(m) => Some(module_items(m)), _ => None }).collect())
             .unwrap_or_default();
@@ -579,11 +623,7 @@ pub fn run(tier: Tier, seed: u64, replay: Option<String>) -> i32 {
         "the CLI's directory walk order is read from its own log lines".into(),
         "macro equivalence compares the expansion after removing derive output (#[automatically_derived] impls) with the library text after removing #[derive]/#[doc]".into(),
     ];
-    let _ = replay;
     let work = tempfile::tempdir().expect("tempdir");
-    let n_inputs = tier.pick(40, 600);
-    let mut drv = Driver::new(seed, 20, 2500);
-    let streams: Vec<Vec<u32>> = drv.draw(n_inputs).iter().map(|t| t.current()).collect();
     let cli = match build_cli() {
         Ok(p) => Some(p),
         Err(e) => {
@@ -591,28 +631,78 @@ pub fn run(tier: Tier, seed: u64, replay: Option<String>) -> i32 {
             None
         }
     };
-    let mut snippets: Vec<String> = vec![];
+    let mut snippets: Vec<Snippet> = vec![];
     let mut failing: Vec<String> = vec![];
     let mut n_cli = 0;
-    let max_cli = tier.pick(24, 300);
-    for (idx, s) in streams.iter().enumerate() {
-        let ms = gen_set(s, &gen_cfg());
-        let mut src = Src::new(s);
-        for _ in 0..5 {
-            src.raw();
-        }
-        let malformed = idx % 3 == 2;
-        let mut texts: Vec<(String, String)> = ms.modules.iter().map(|m| (m.name.clone(), print(&ModuleSet { modules: vec![m.clone()] }))).collect();
-        if malformed {
-            // corrupt one module: insert an illegal character after its first assignment's `::=`
-            let k = src.pick(texts.len());
-            let t = &mut texts[k].1;
-            if let Some(p) = t.find("::= ").and_then(|h| t[h + 4..].find("::= ").map(|q| h + 4 + q)) {
-                t.insert_str(p + 4, "~ ");
+    let mut max_cli = tier.pick(24, 300);
+    // one input = the module texts, whether they were corrupted, and the choice stream the
+    // macro material is drawn from
+    struct Input {
+        texts: Vec<(String, String)>,
+        malformed: bool,
+        stream: Option<Vec<u32>>,
+    }
+    let mut inputs: Vec<Input> = vec![];
+    if let Some(path) = &replay {
+        let v: serde_json::Value = serde_json::from_str(&std::fs::read_to_string(path).expect("replay")).expect("json");
+        let texts: Vec<(String, String)> = v["sources"]
+            .as_array()
+            .map(|a| a.iter().map(|s| (s["name"].as_str().unwrap_or("m").trim_end_matches(".asn").to_string(), s["text"].as_str().unwrap_or("").to_string())).collect())
+            .unwrap_or_default();
+        if v["kind"] == "c20-macro" {
+            for (name, t) in &texts {
+                if name == "lib.rs" || name == "lib" {
+                    ctx.inconclusive.push("replay of a whole macro host crate is not supported; replay its snippets".into());
+                    continue;
+                }
+                let whole = v["whole"].as_bool().unwrap_or_else(|| t.contains("DEFINITIONS"));
+                let wrapped = if whole { t.clone() } else { format!("{DUMMY_HEADER}{t}{DUMMY_FOOTER}") };
+                match comp::compile_rasn1(&wrapped, &comp::Cfg::default()) {
+                    comp::Outcome::Ok(_) => snippets.push((t.clone(), whole)),
+                    _ => failing.push(t.clone()),
+                }
+            }
+        } else {
+            if let Some(k) = v["variant"].as_u64() {
+                n_cli = k as usize;
+                max_cli = n_cli + 2;
             } else {
-                t.push_str("~");
+                max_cli = 32;
+            }
+            // the same input once per CLI variant pair (two backends per input)
+            let rounds = if v["variant"].is_u64() { 1 } else { 16 };
+            for _ in 0..rounds {
+                inputs.push(Input { texts: texts.clone(), malformed: true, stream: None });
             }
         }
+    } else {
+        let n_inputs = tier.pick(40, 600);
+        let mut drv = Driver::new(seed, 20, 2500);
+        let streams: Vec<Vec<u32>> = drv.draw(n_inputs).iter().map(|t| t.current()).collect();
+        for (idx, s) in streams.iter().enumerate() {
+            let ms = gen_set(s, &gen_cfg());
+            let mut src = Src::new(s);
+            for _ in 0..5 {
+                src.raw();
+            }
+            let malformed = idx % 3 == 2;
+            let mut texts: Vec<(String, String)> = ms.modules.iter().map(|m| (m.name.clone(), print(&ModuleSet { modules: vec![m.clone()] }))).collect();
+            if malformed {
+                // corrupt one module: insert an illegal character after its first assignment's `::=`
+                let k = src.pick(texts.len());
+                let t = &mut texts[k].1;
+                if let Some(p) = t.find("::= ").and_then(|h| t[h + 4..].find("::= ").map(|q| h + 4 + q)) {
+                    t.insert_str(p + 4, "~ ");
+                } else {
+                    t.push_str("~");
+                }
+            }
+            inputs.push(Input { texts, malformed, stream: Some(s.clone()) });
+        }
+    }
+    for (idx, input) in inputs.iter().enumerate() {
+        let texts = &input.texts;
+        let malformed = input.malformed;
         // files
         let in_dir = work.path().join(format!("in{idx}"));
         std::fs::create_dir_all(&in_dir).unwrap();
@@ -670,7 +760,7 @@ pub fn run(tier: Tier, seed: u64, replay: Option<String>) -> i32 {
                     n_cli += 1;
                     ctx.case(&format!("{idx}:{backend:?}:cli:{variant}"), true);
                     ctx.class("leg:cli");
-                    if let Some((clause, detail)) = cli_case(cli, backend, &texts, work.path(), variant) {
+                    if let Some((clause, detail)) = cli_case(cli, backend, texts, work.path(), variant) {
                         ctx.fail(Failure {
                             finding: None,
                             what: format!("{clause}: {detail}"),
@@ -683,14 +773,23 @@ pub fn run(tier: Tier, seed: u64, replay: Option<String>) -> i32 {
         // macro material: header-less snippets and whole modules, from the generator
         // configuration whose outputs are known to pass rasn's derives (see C01: the expansion
         // runs the derives, so C01's findings would fail here for the same reason)
-        {
+        if let Some(s) = &input.stream {
             let mcfg = GenCfg { max_modules: 1, max_types: 4, max_values: 2, max_comps: 4, max_depth: 2, imports: false, ..crate::props::c01::gen_cfg() };
             let mm = gen_set(&s[s.len() / 3..], &mcfg);
-            let snip = if idx % 2 == 0 { snippet_of(&mm) } else { print(&mm) };
-            let wrapped = if snip.contains("BEGIN") { snip.clone() } else { format!("{DUMMY_HEADER}{snip}{DUMMY_FOOTER}") };
-            if !snip.contains("\"####") {
+            let whole = idx % 2 == 1;
+            let snip = if whole {
+                // the header in one of the spellings the library accepts
+                let lay = HEADER_LAYOUTS[(idx / 2) % HEADER_LAYOUTS.len()];
+                print(&mm).replacen("::= BEGIN", lay, 1)
+            } else {
+                snippet_of(&mm)
+            };
+            // a bare list that happened to contain the keyword would not be bare for the macro
+            let not_bare = !whole && snip.contains("BEGIN");
+            let wrapped = if whole { snip.clone() } else { format!("{DUMMY_HEADER}{snip}{DUMMY_FOOTER}") };
+            if !snip.contains("\"####") && !not_bare {
                 match comp::compile_rasn1(&wrapped, &comp::Cfg::default()) {
-                    comp::Outcome::Ok(c) if c.warnings.is_empty() && snippets.len() < tier.pick(20, 120) => snippets.push(snip),
+                    comp::Outcome::Ok(c) if c.warnings.is_empty() && snippets.len() < tier.pick(20, 120) => snippets.push((snip, whole)),
                     comp::Outcome::Err(_) if failing.len() < 2 => failing.push(snip),
                     _ => {}
                 }
@@ -698,10 +797,10 @@ pub fn run(tier: Tier, seed: u64, replay: Option<String>) -> i32 {
         }
         let _ = std::fs::remove_dir_all(&in_dir);
     }
-    if failing.is_empty() {
+    if failing.is_empty() && replay.is_none() {
         failing.push("A ::= SEQUENCE { a ~ INTEGER }\n".into());
     }
-    ctx.sample(json!({"macro_snippet": snippets.first()}));
+    ctx.sample(json!({"macro_snippet": snippets.first().map(|x| &x.0), "macro_complete_module": snippets.iter().find(|x| x.1).map(|x| &x.0)}));
     if let Err(e) = macro_leg(&mut ctx, &snippets, &failing) {
         ctx.inconclusive.push(e);
     }
